@@ -4,6 +4,9 @@ Open Scope Z_scope.
 
 Ltac t := intros; opens; repeat case_if; dok.
 
+Section WithPtr.
+Context {PS : PtrSpec}.
+
 Lemma un_int_ok f d : d_ok d -> res_ok (un_int f d).
 Proof. unfold un_int. t. Qed.
 Lemma bin_int_ok f d : d_ok d -> res_ok (bin_int f d).
@@ -124,9 +127,13 @@ Definition param_ok (p : list Z) : Prop := zlen p <= MaxItemSize.
 Definition dres_ok (r : dres) : Prop :=
   match r with DOk d => d_ok d | DThrow x d => item_ok x /\ d_ok d | DFault => True end.
 
-Theorem exec_data_ok e op p d : d_ok d -> param_ok p -> dres_ok (exec_data e op p d).
+(* the only instruction that makes a Pointer is PUSHA: its target has to satisfy the pointer condition *)
+Definition pusha_ok (e : env) (op : opcode) (p : list Z) : Prop :=
+  forall off, op = PUSHA -> jump_offset (e_ip e) (e_len e) p = Some off -> ptr_ok off (e_sid e).
+
+Theorem exec_data_ok e op p d : d_ok d -> param_ok p -> pusha_ok e op p -> dres_ok (exec_data e op p d).
 Proof.
-  intros H P. unfold exec_data.
+  intros H P PA. unfold exec_data.
   enough (R : res_ok (exec_data_opt e op p d)).
   { destruct (exec_data_opt e op p d) as [[]|]; exact R || exact I. }
   unfold param_ok in P.
@@ -158,4 +165,8 @@ Proof.
     | solve [opens; first [apply ld_ok | apply st_ok | apply new_seq_ok | apply op_convert_ok]; assumption]
     | solve [t]
     | idtac ].
+  (* PUSHA *)
+  opens. apply push_ok; [|assumption]. apply PA; [reflexivity|assumption].
 Qed.
+
+End WithPtr.
